@@ -1079,8 +1079,10 @@ class Executor:
                 continue
             t, f = self.split(self.truthy(r.v, r.st), r.st)
             if t is not None:
+                self.narrow(node.test, True, t)
                 out.extend(self.eval(node.body, t))
             if f is not None:
+                self.narrow(node.test, False, f)
                 out.extend(self.eval(node.orelse, f))
         return out
 
